@@ -732,3 +732,54 @@ Example full_example_ok :
   fst (put_verified cap_env s "eeeee"%string [145; 1; 5] RChunk) = PRefused /\
   contains (snd (put_verified cap_env s "a"%string [145; 1; 1] RChunk)) "dddd"%string = false.
 Proof. vm_compute. repeat split; reflexivity. Qed.
+
+(* ------------------------------------------------------------------ clean-up takes a key out of every view *)
+Lemma fold_remove_effects E k : forall ks s, In k ks ->
+  klookup k (cache (fold_left (remove E) ks s)) = None /\ In (TDelete k) (tasks (fold_left (remove E) ks s)).
+Proof.
+  assert (Keep : forall ks s, klookup k (cache s) = None -> In (TDelete k) (tasks s) ->
+                 klookup k (cache (fold_left (remove E) ks s)) = None /\ In (TDelete k) (tasks (fold_left (remove E) ks s))).
+  { induction ks as [|k0 ks IH]; intros s Hc Ht; cbn [fold_left]; auto. apply IH.
+    - unfold remove; sproj. apply (alookup_none keyb keyb_eq). intros v Hin.
+      apply (in_aremove keyb keyb_eq) in Hin as [Hin _].
+      eapply (proj1 (alookup_none keyb keyb_eq k (cache s))); eauto.
+    - unfold remove; sproj. apply in_app_iff. now left. }
+  induction ks as [|k0 ks IH]; intros s Hin; [destruct Hin|]. cbn [fold_left].
+  destruct (String.string_dec k0 k) as [->|N].
+  - apply Keep.
+    + unfold remove; sproj. apply (alookup_aremove_same keyb keyb_eq).
+    + unfold remove; sproj. apply in_app_iff. right. now left.
+  - apply IH. destruct Hin; [congruence|auto].
+Qed.
+
+Lemma views_cleanup E s : dist_inj E -> Views E s -> Views E (cleanup E s).
+Proof.
+  intros Inj V. unfold cleanup. destruct (len (idx s) <? cleanup_threshold); auto. destruct (range s); auto.
+  now apply views_fold_remove.
+Qed.
+
+(* a held key beyond the responsible range, when clean-up applies: afterwards it is in no view -- not in
+   the record index, not in the distance index, not in the read cache -- and its file delete is spawned;
+   and the views still agree with each other *)
+Lemma cleanup_removes_from_all_views_lemma E s r k : dist_inj E -> Views E s ->
+  cleanup_applies s r -> r <= e_dist E k -> contains s k = true ->
+  contains (cleanup E s) k = false /\
+  (forall d, ~ In (d, k) (bydist (cleanup E s))) /\
+  klookup k (cache (cleanup E s)) = None /\
+  In (TDelete k) (tasks (cleanup E s)) /\
+  Views E (cleanup E s).
+Proof.
+  intros Inj V [Ap Rg] Far Hc.
+  pose proof (views_cleanup E s Inj V) as V'.
+  assert (C0 : contains (cleanup E s) k = false).
+  { destruct (contains (cleanup E s) k) eqn:X; auto. exfalso.
+    apply (cleanup_only_out_of_range_lemma E s V k) in X as [_ X]. apply X. exists r. repeat split; auto. }
+  split; [exact C0|]. split.
+  { intros d Hin. apply (vw_bd E _ V') in Hin as [Hh _]. apply contains_held in Hh. congruence. }
+  assert (Hk : In k (map snd (filter (fun p : N * key => r <=? fst p) (sortN (bydist s))))).
+  { apply in_map_iff. exists (e_dist E k, k). split; auto. apply filter_In. split.
+    - apply (proj2 (in_sortN _ _)). apply (proj2 (vw_bd E s V _ _)). split; auto. now apply contains_held.
+    - cbn. now apply N.leb_le. }
+  unfold cleanup in *. replace (len (idx s) <? cleanup_threshold) with false in * by (symmetry; apply N.ltb_ge; lia).
+  rewrite Rg in *. destruct (fold_remove_effects E k _ s Hk) as [A B]. auto.
+Qed.
